@@ -38,8 +38,8 @@ type c18Scn struct {
 	DelayUs   int         `json:"delay_us,omitempty"`
 	Clients   []c18Client `json:"clients,omitempty"`
 	Buf       int         `json:"buf"`
-	SlowEst   bool        `json:"slow_est,omitempty"` // the Established callback takes a few milliseconds
-	Push      bool        `json:"push,omitempty"`     // an application goroutine keeps sending to every established client through its ServerChannel
+	SlowEst   bool        `json:"slow_est,omitempty"`   // the Established callback takes a few milliseconds
+	Push      bool        `json:"push,omitempty"`       // an application goroutine keeps sending to every established client through its ServerChannel
 	Odd       bool        `json:"odd,omitempty"`        // besides the clients: on every listener a peer whose only envelope is a session that cannot start one, gone at once
 	NoBacklog bool        `json:"no_backlog,omitempty"` // the queue between acceptors and consumer has no buffer (Backlog 0): a pure hand-off
 }
